@@ -9,7 +9,7 @@ import SecsModel.Model.GemHost
 gemc20 rcmd C<name hex>~<param id>,…~<ce id>;…  B<name hex>,…  R<name hex>,…  <t<hex> | #>  P<id>=<val>,…
    -> ok <eff>;…        eff := r<hcack> | x | c<name hex>(<id>=<val>,…) | t<ce id>
 gemc20 pair <gemev cfg> <op>*
-   op := U<ceid>=<dv>,…  subscribe (auto id) | X<rptid>:<ceid>=<dv>,…  subscribe (explicit id) | C  clear | T<ceid>,…  trigger
+   op := U<ceid>=<dv>,…  subscribe (auto id) | X<rptid>:<ceid>=<dv>,…  subscribe (explicit id) | C  clear | D  disable_ceid_reports | N  disable_ceids | T<ceid>,…  trigger
        | V<id>=<val> | W<id>=<val>
    -> ok (<out>@<reports>@<links>@<subs>|<counter>)*
    out := k<ack>,…  (acks of the equipment: a number or x) | <msg>|<msg>…(!)  per S6F11: e<ceid>/<rptid>(<dv>=<val>,…);…;ok  or …;x | -
@@ -54,6 +54,7 @@ def showHostEff : Host.HostEff → String
 def showOut : Host.Out → String
   | .acks a b c => "k" ++ showAck a ++ "," ++ showAck b ++ "," ++ showAck c
   | .cleared a b => "k" ++ showAck a ++ "," ++ showAck b
+  | .single a => "k" ++ showAck a
   | .delivered ms crashed =>
     (if ms.isEmpty && !crashed then "-" else "|".intercalate (ms.map (fun m => ";".intercalate (m.map showHostEff)))) ++ (if crashed then "!" else "")
   | .nothing => "-"
@@ -70,6 +71,8 @@ def parsePairOp (w : String) : Option Host.Op :=
       pure (Host.Op.subscribe e.1 e.2 (some (← parseId r)))
     | _ => none
   | ['C'] => some .clear
+  | ['D'] => some .disableReports
+  | ['N'] => some .disableCeids
   | 'T' :: rest => (parseIds (String.ofList rest)).map Host.Op.trigger
   | 'V' :: rest => match (String.ofList rest).splitOn "=" with
     | [i, v] => do pure (Host.Op.setSv (← parseId i) (← parseVal v))
